@@ -21,6 +21,7 @@ import (
 	"testing"
 	"time"
 
+	"github.com/ollama/ollama/types/model"
 	"github.com/ollama/ollama/verifsim"
 )
 
@@ -146,8 +147,26 @@ func crashOne(t *testing.T, tape *verifsim.Tape, tier string, keepLog bool, k in
 				}
 			}
 			if op.kind == "pull" && d("tag-updated", 3) == 0 {
-				// the tag was updated at the registry since it was pulled (or it is new)
-				w.publish("lib/m0:latest", [][]byte{ggufBytes(12), []byte("{{ .Prompt }} new")}, []byte(`{"model_format":"gguf","model_family":"llama","n":"updated"}`))
+				// the tag was updated at the registry since it was pulled (or it is new): the
+				// interrupted pull replaces a model. One case in two makes sure the previous
+				// version is in the store; the new version replaces every layer, or keeps the weights.
+				if d("tag-updated-pulled-before", 2) == 0 {
+					r := w.doOp(ctx, op)
+					w.note("prior: %s (the version that is about to be replaced) -> %d %s", op, r.code, firstN(r.errorMsg(), 80))
+					verifsim.Sleep(time.Duration(1+d("settle", 500)) * time.Millisecond)
+				}
+				n := model.ParseName(op.name)
+				key := strings.ToLower(n.Namespace + "/" + n.Model + ":" + n.Tag)
+				oldGGUF := 10
+				if strings.HasSuffix(key, ":v1") {
+					oldGGUF = 11
+				}
+				layers := [][]byte{ggufBytes(12), []byte("{{ .Prompt }} new")}
+				if d("tag-updated-keeps-weights", 2) == 0 {
+					layers[0] = ggufBytes(oldGGUF)
+				}
+				w.publish(key, layers, []byte(`{"model_format":"gguf","model_family":"llama","n":"updated"}`))
+				verifsim.Probe("pull_of_updated_tag")
 			}
 			verifsim.Sleep(3 * time.Second)
 			before = w.snapshot()
